@@ -18,8 +18,10 @@ ID = "C17"
 RULE = ("cases = (1..3 players: finite or endless audio in a sample format (float32, or integers as "
         "int32/int16/int8/uint8), chunk size, channels, the container kind, possibly the very container "
         "object an earlier player was given; a control "
-        "history from the main thread over pause/play/stop/spawn on any player, refused plays, recordings "
-        "nobody plays (never read / partly read / stopped) and a final "
+        "history from the main thread over pause/play/stop/spawn on any player (also pause - controller idles - "
+        "play [- stop] so that the pause is honoured and the next call lands inside the resume), refused plays, "
+        "0..4+ recordings nobody plays (never read / partly read / stopped), any of them ended by the user at any "
+        "point, and a final "
         "close / with-exit / terminate; wait flag; a schedule = list of small ints choosing the "
         "next thread at every synchronisation point, backend call and, in the line tier, every "
         "source line of lazy_io.py, with bursts (who, n) = the same choice n times so that one thread passes "
@@ -80,7 +82,12 @@ def strat(lines):
       st.tuples(st.sampled_from(OPS), st.integers(0, 3)),
       st.tuples(st.sampled_from(OPS), st.integers(0, 3)),
       st.tuples(st.sampled_from(OPS + ["spawn", "spawn", "refused play", "record"]), st.integers(0, 3)),
-      st.tuples(st.just("spawn"), st.integers(0, 3))), max_size=8)
+      st.tuples(st.just("spawn"), st.integers(0, 3)),
+      # a pause the player has time to honour (the controller idles while it parks), the resume, and possibly
+      # a stop right behind it: control calls that land while the player is inside the backend calls of the resume
+      st.tuples(st.sampled_from(["pause, idle, play", "pause, idle, play, stop", "idle"]), st.integers(0, 3)),
+      # recordings nobody plays, ended by the user (stop + drain) at any point of the history
+      st.tuples(st.sampled_from(["end recording", "end recording", "record"]), st.integers(0, 3))), max_size=8)
     maxs = 40 if tier == "quick" else 120
     # a schedule entry is one choice (an int) or a burst (who, n): the same choice at the next n choice points,
     # so that one thread (the controller issuing pause + close, or a player running to its end) passes many
@@ -91,6 +98,8 @@ def strat(lines):
       players=st.lists(player, min_size=1, max_size=3),
       extra=st.lists(player, max_size=2),
       ctl=ctl, wait=st.booleans(),
+      # recordings opened on the manager before anything is played (each: samples read from the main thread)
+      recs0=st.lists(st.integers(0, 3), max_size=4),
       end=st.sampled_from(["close", "with", "terminate", "close twice", "with, left by an exception"]),
       schedule=st.lists(entry, max_size=maxs),
       # chunk=None plays with the documented default chunk size (chunks.size, set small for the case);
@@ -149,8 +158,13 @@ def normalise(c):
         ctl.append(("spawn", spawned))
         spawned += 1
         nlive += 1
-    elif op in ("refused play", "record"):
+    elif op in ("refused play", "record", "end recording", "idle"):
       ctl.append((op, i))
+    elif op.startswith("pause, idle, play"):
+      j = i % nlive
+      ctl.extend([("pause", j), ("idle", 3), ("play", j)])
+      if op.endswith("stop"):
+        ctl.append(("stop", j))
     else:
       ctl.append((op, i % nlive))
   allp = players + extra[:spawned]
@@ -247,6 +261,8 @@ def run_case(c):
 
   stopped = set()
   recs = []
+  marks = set()
+  resumed = set()
   try:
     if tracer:
       sys.settrace(tracer)
@@ -254,20 +270,41 @@ def run_case(c):
       io = lazy_io.AudioIO(wait=c["wait"])
       if c["end"].startswith("with"):
         io = io.__enter__()     # "with AudioIO(...) as io"
+      def record(i):
+        # a recording nobody plays: opened from the main thread and never read (i = 0), or i samples of it
+        # read there (a started recording with an unread rest), or read and stopped by the user (i = 3)
+        rec = io.record(chunk_size=2)
+        recs.append(rec)
+        if i:
+          rec.take(min(i, 2))
+        if i == 3:
+          rec.stop()
+
+      for i in c.get("recs0", []):
+        record(i)
       for p in players:
         start(io, p)
       for op, i in ctl:
         if op == "spawn":
           start(io, extra[i])
         elif op == "record":
-          # a recording nobody plays: opened from the main thread and never read (i = 0), or i samples of it
-          # read there (a started recording with an unread rest), or read and stopped by the user (i = 3)
-          rec = io.record(chunk_size=2)
-          recs.append(rec)
-          if i:
-            rec.take(min(i, 2))
-          if i == 3:
+          record(i)
+        elif op == "end recording":
+          # the user ends one of the recordings, in any order: stop it and drain it (its device stream closes,
+          # the manager forgets it); everything at close must hold for the others
+          if recs:
+            rec = recs[i % len(recs)]
+            reg = list(io._recordings)
+            pos = [k for k, r in enumerate(reg) if r is rec]
+            if pos and len(reg) >= 3 and 0 < pos[0] < len(reg) - 1:
+              marks.add("3+ recordings open, one neither first nor last ended by the user")
+            marks.add("a recording ended by the user")
             rec.stop()
+            rec.take(float("inf"))
+        elif op == "idle":
+          # the controller does something else for a while: scheduling points at which the players may run
+          for _ in range(2 * i + 2):
+            S.point("controller idle")
         elif op == "refused play":
           # a play() the backend (odd i: the sample rate) or the format table refuses: the error reaches
           # the caller and the manager stays usable - everything below must still hold
@@ -282,7 +319,15 @@ def run_case(c):
         else:
           if op == "stop":
             stopped.add(i)
+            if i in resumed:
+              marks.add("a parked player resumed, then stopped")
+          rec_i = threads[i]._rec
+          if op == "play" and not rec_i.done and rec_i.what == "event.wait":
+            resumed.add(i)     # the pause was honoured: the player is parked in go.wait()
+            marks.add("a parked player resumed")
           getattr(threads[i], op)()
+      if not c["wait"] and any(not threads[i]._rec.done for i in resumed):
+        marks.add("a parked player resumed, then stopped")
       if c["end"] == "with":
         io.__exit__(None, None, None)
       elif c["end"] == "with, left by an exception":
@@ -438,10 +483,13 @@ def run_case(c):
       break
   if any(p.get("shared") for p in specs):
     labels.append("same container object played by two players")
-  if any(op == "record" for op, _ in ctl):
+  if c.get("recs0") or any(op == "record" for op, _ in ctl):
     labels.append("a recording nobody plays")
-  if any(op == "record" and i == 0 for op, _ in ctl):
+  if 0 in c.get("recs0", []) or any(op == "record" and i == 0 for op, _ in ctl):
     labels.append("a recording never read")
+  labels.extend(sorted(marks))
+  if len(c.get("recs0", [])) + sum(op == "record" for op, _ in ctl) >= 3:
+    labels.append("3+ recordings nobody plays")
   if any(op == "refused play" for op, _ in ctl):
     labels.append("a refused play in the history")
   if any(p.get("chan_kw") == "nchannels" and p["channels"] > 1 for p in specs):
@@ -453,7 +501,7 @@ def run_case(c):
     labels.append("controller burst (main won %d+ choice points in a row)" % need)
   if any(v >= need for k, v in S.longest.items() if k != "main"):
     labels.append("player burst (a player won %d+ choice points in a row)" % need)
-  return {"nontrivial": S.taken >= 1 and len([op for op, _ in ctl if op not in ("spawn", "record")]) >= 1,
+  return {"nontrivial": S.taken >= 1 and len([op for op, _ in ctl if op not in ("spawn", "record", "end recording", "idle")]) >= 1,
           "labels": labels}
 
 
@@ -466,13 +514,17 @@ CLAUSES = [
                  "player burst (a player won 5+ choice points in a row)": .06,
                  "integer sample format": .1, "integer sample format, padded tail": .04,
                  "same container object played by two players": .02,
-                 "a recording nobody plays": .03, "a recording never read": .01},
+                 "a recording nobody plays": .03, "a recording never read": .01,
+                 "3+ recordings open, one neither first nor last ended by the user": .015,
+                 "a parked player resumed": .03, "a parked player resumed, then stopped": .03},
          doc="schedules pre-empting at lock/event/thread operations and backend calls"),
   Clause("source_lines", strat(True), run_case, quick=1500, thorough=30000,
          floors={"pre-empted": .15, "paused at close": .05,
                  "controller burst (main won 12+ choice points in a row)": .08,
                  "player burst (a player won 12+ choice points in a row)": .06,
                  "integer sample format": .1, "same container object played by two players": .02,
-                 "a recording nobody plays": .03},
+                 "a recording nobody plays": .03,
+                 "3+ recordings open, one neither first nor last ended by the user": .015,
+                 "a parked player resumed": .015},
          doc="schedules pre-empting at every source line of lazy_io.py as well (finer interleavings of run/close/stop)"),
 ]
